@@ -1,6 +1,6 @@
 import GrmVerif.Lemmas.LRSound
 import GrmVerif.Lemmas.LRComplete2
-import GrmVerif.Lemmas.Term2
+import GrmVerif.Lemmas.TermAdj
 import GrmVerif.Props.C17
 /-!
 # C01 — a generated parser recognises exactly the grammar's language
@@ -122,19 +122,22 @@ theorem lr_accepts_iff_sentence (G : Grammar) (A : Automaton) (hc : check G A = 
     exact ⟨fuel, T', h⟩
 
 /-- **Termination.** On an automaton that passes `check` and the termination certificate
-`Term.termCheck` (every run of reductions started from one state, or from two stacked states, under
-one lookahead ends within `N` steps — evaluated on every dumped automaton), the driver ends on EVERY
-input: some amount of fuel gives an answer. -/
+`Term.termCheckAdj` (the run of reductions under one lookahead started from the stack `[start]`, and
+from every two stacked states `[s, b]` where `b` has an edge to `s`, ends within `N` steps —
+evaluated on every dumped automaton), the driver ends on EVERY input: some amount of fuel gives an
+answer. Only these pairs are asked for because parse stacks are paths of the automaton from the start
+state (`Term.stepClosed_isPath`: a reduction's goto target is an edge target). The earlier
+certificate over ALL pairs of states implies this one (`Term.termCheckAdj_of_termCheck`). -/
 theorem lr_terminates (G : Grammar) (A : Automaton) (hc : check G A = true) (N : Nat)
-    (ht : Term.termCheck G A N = true) (w : List Nat) (hw : InputOk G w) :
+    (ht : Term.termCheckAdj G A N = true) (w : List Nat) (hw : InputOk G w) :
     ∃ fuel, parse G A w fuel ≠ .fuelOut :=
-  Term.run_total (check_props G A hc) ht hw w.length (init A) (inv_init w) (by simp [init])
+  Term.run_total_adj (check_props G A hc) ht hw w.length (init A) (inv_init w) (by simp [init])
 
 /-- **Every non-sentence is rejected with an error** (second half of the property's last sentence;
-needs termination): on an automaton that passes all of `check`, `checkLA` and `termCheck`, an input
-that is not a sentence makes the driver report an error. -/
+needs termination): on an automaton that passes all of `check`, `checkLA` and `termCheckAdj`, an
+input that is not a sentence makes the driver report an error. -/
 theorem lr_rejects_non_sentence (G : Grammar) (A : Automaton) (hc : check G A = true) (N : Nat)
-    (ht : Term.termCheck G A N = true) (w : List Nat) (hw : InputOk G w) (hns : ¬ Sentence G w) :
+    (ht : Term.termCheckAdj G A N = true) (w : List Nat) (hw : InputOk G w) (hns : ¬ Sentence G w) :
     ∃ fuel i st, parse G A w fuel = .error i st := by
   obtain ⟨fuel, hf⟩ := lr_terminates G A hc N ht w hw
   cases ho : parse G A w fuel with
@@ -151,11 +154,87 @@ the input is a sentence. -/
 theorem lr_decides (G : Grammar) (A : Automaton) (hc : check G A = true)
     (An : Analyses) (hAn : analyses G = some An)
     (hla : checkLA G A (An.nullable.contains ·) (An.first.contains ·) = true)
-    (N : Nat) (ht : Term.termCheck G A N = true) (w : List Nat) (hw : InputOk G w) :
+    (N : Nat) (ht : Term.termCheckAdj G A N = true) (w : List Nat) (hw : InputOk G w) :
     (Sentence G w ∧ ∃ fuel t, parse G A w fuel = .accept t) ∨
     (¬ Sentence G w ∧ ∃ fuel i st, parse G A w fuel = .error i st) := by
   by_cases hs : Sentence G w
   · exact Or.inl ⟨hs, (lr_accepts_iff_sentence G A hc An hAn hla w hw).mpr hs⟩
   · exact Or.inr ⟨hs, lr_rejects_non_sentence G A hc N ht w hw hs⟩
+
+/-! ### What a failing termination certificate means
+
+The driver reports a pair `[s, b]` that fails `termCheckAdj` as a defect only together with a witness
+from `Term.findCycle`: the local run from `[s, b]` under `la` reaches a local stack `ts ++ bs` such that
+the run from the top part `ts` alone leads, without popping below `ts`, to `ts ++ vs` — the same top part
+again (`vs = []`: back at the same stack; `vs ≠ []`: the stack grows for ever, as with hidden left
+recursion). Informally (not proved here) every local run that goes on for ever has such a witness with
+`ts` of one or two states: either the stack height tends to infinity — then the top states at the last
+visits of two heights coincide — or some lowest height is visited infinitely often and the top state
+there repeats over an unchanged rest. -/
+
+/-- **A cycling pair loops the parser** whenever the parser gets there: if the parser, on input `w`,
+reaches a configuration whose stack has `s` on top of `b` with next token `la`, and `findCycle` reports a
+cycle of the local run from `[s, b]` under `la`, then the parse of `w` never ends — no amount of fuel
+gives an answer. No certificate is assumed of the automaton. -/
+theorem cert_cycle_parse_diverges (G : Grammar) (A : Automaton) (la s b W steps pre0 : Nat) (c : Nat × Nat × Nat)
+    (hcyc : Term.findCycle G A la W steps pre0 [s, b] = some c)
+    (w : List Nat) (rest : List Nat) (astack : List Tree) (i : Nat)
+    (hreach : Steps G A w (init A) ⟨s :: b :: rest, astack, i⟩) (hla : nextTok G w i = la) :
+    ∀ fuel, parse G A w fuel = .fuelOut := by
+  have hf : ∀ fuel, Rec.feed G A (nextTok G w i) fuel (s :: b :: rest) = .fuelOut := by
+    rw [hla]; exact Term.findCycle_diverges hcyc rest
+  exact Term.steps_diverge hreach (fun fuel => Term.feed_fuelOut_run i fuel _ _ (hf fuel))
+
+/-- **A cycle from the start state is an input on which the parser loops**: the one-lexeme input
+`[la]` (the empty input when `la` is end-of-input). -/
+theorem cert_cycle_at_start_parse_diverges (G : Grammar) (A : Automaton) (la W steps pre0 : Nat) (c : Nat × Nat × Nat)
+    (hcyc : Term.findCycle G A la W steps pre0 [A.start] = some c) :
+    ∀ fuel, parse G A (if la = G.eof then [] else [la]) fuel = .fuelOut := by
+  intro fuel
+  have hla : nextTok G (if la = G.eof then [] else [la]) 0 = la := by
+    by_cases h : la = G.eof
+    · simp [nextTok, h]
+    · simp [nextTok, h]
+  have hf := Term.findCycle_diverges hcyc [] fuel
+  rw [← hla] at hf
+  exact Term.feed_fuelOut_run 0 fuel _ _ hf
+
+/-- **A cycling adjacent pair over a reachable state is a stack on which the driver's reduction loop
+never ends** (`_partial`: a stack, not an input). If `b` is reachable from the start state
+(`Term.reachable`), has an edge to `s`, and `findCycle` reports a cycle of the local run from `[s, b]`
+under `la`, then there is a stack `s :: b :: rest` that is a path of the automaton from the start state
+on which `feed` under `la` returns no answer for any fuel.
+Missing for the full converse ("there is an INPUT on which `parse` loops"): an input whose parse
+reaches that very stack with next token `la` (then `cert_cycle_parse_diverges` applies). That needs
+every symbol on the path to derive a token string AND the reductions on the way to be taken under the
+lookaheads that string supplies AND `la` to be a possible next token there; for a table with merged
+states (Pager/LALR) `action s la` can be a reduction although no viable prefix puts `la` after that
+path, and neither `check` nor `checkLA` says otherwise. -/
+theorem cert_cycle_feed_diverges_partial (G : Grammar) (A : Automaton) (la s b W steps pre0 : Nat) (c : Nat × Nat × Nat)
+    (hb : b ∈ Term.reachable A) (hadj : Term.adj A b s = true)
+    (hcyc : Term.findCycle G A la W steps pre0 [s, b] = some c) :
+    ∃ rest, Term.IsPath A (s :: b :: rest) ∧ ∀ fuel, Rec.feed G A la fuel (s :: b :: rest) = .fuelOut := by
+  obtain ⟨rest, hp⟩ := Term.reachable_sound hb
+  obtain ⟨X, hX⟩ := (Term.adj_iff A b s).mp hadj
+  exact ⟨rest, hp.push hX, Term.findCycle_diverges hcyc rest⟩
+
+/-- the same with the certificate's own fuel instead of a cycle witness: a pair that fails
+`termCheckAdj` at `N` keeps the reduction loop busy for at least `N` steps on every stack that ends in
+that pair (exact, but says nothing beyond `N`). -/
+theorem cert_failure_feed_busy (G : Grammar) (A : Automaton) (la N : Nat) (xs ys : List Nat)
+    (h : Term.localRun G A la N xs = .fuelOut) : Rec.feed G A la N (xs ++ ys) = .fuelOut :=
+  Term.localRun_fuelOut_feed N xs ys h
+
+/-! test: the hypotheses of the three `cert_cycle…` theorems are satisfiable — `^ : A; A : A | 'a';`
+with the (wrong) table that reduces `A : A` in the state after `A` -/
+private def exG : Grammar := ⟨2, 2, 1, 0, [(0, [.rule 1]), (1, [.rule 1]), (1, [.tok 0])], [], []⟩
+private def exA : Automaton :=
+  ⟨0, [⟨[], [], [(.rule 1, 1), (.tok 0, 2)], [.shift 2, .error], [none, some 1], [], [], [], false⟩,
+       ⟨[], [], [], [.error, .reduce 1], [none, none], [], [], [], false⟩,
+       ⟨[], [], [], [.reduce 2, .reduce 2], [none, none], [], [], [], false⟩], [], []⟩
+example : Term.findCycle exG exA 1 8 4 0 [1, 0] = some (0, 2, 1) := by decide
+example : Term.adj exA 0 1 = true ∧ 0 ∈ Term.reachable exA := by decide
+example : Term.termCheckAdj exG exA 50 = false := by decide
+example : Term.failAdj exG exA 50 = some (1, 1, some 0) := by decide
 
 end GrmVerif.C01
